@@ -612,5 +612,54 @@ func (r *c10Run) govSwitch() {
 			}
 		}
 	}
+	// 3. several entries at once: two or three methods (of one precompile and of both), a method
+	//    together with a whole address in either order; every named method must be off, every other
+	//    method must behave as before
+	idOf := func(m method) string { return fmt.Sprintf("%s/%x", m.pc.Hex(), m.data(e.Victim.Hex())[:4]) }
+	sel := func(m method) string { return m.pc.Hex() + string(m.data(e.Victim.Hex())[:4]) }
+	rng := core.Rng(r.spec.Seed, 10)
+	for k := 0; k < 12 && len(ms) >= 3; k++ {
+		ctx := c.Branch()
+		var list []string
+		offSel := map[string]bool{}
+		offAddr := map[common.Address]bool{}
+		n := 2 + rng.IntN(2)
+		for _, j := range rng.Perm(len(ms))[:n] {
+			list = append(list, idOf(ms[j]))
+			offSel[sel(ms[j])] = true
+		}
+		if k%3 == 2 { // plus a whole address, first or last in the list
+			a := ms[rng.IntN(len(ms))].pc
+			offAddr[a] = true
+			if rng.IntN(2) == 0 {
+				list = append([]string{a.Hex()}, list...)
+			} else {
+				list = append(list, a.Hex())
+			}
+		}
+		if k%2 == 1 {
+			for i := range list {
+				list[i] = mixed(list[i])
+			}
+		}
+		if err := setSwitch(ctx, list); err != nil {
+			r.res.Inconclusive = err.Error()
+			return
+		}
+		for _, m2 := range ms {
+			b2, _ := ctx.CacheContext()
+			ok, d := run(b2, m2)
+			r.judged++
+			r.res.Count("switch_calls_judged", 1)
+			r.res.Count("multi_entry_switch_calls_judged", 1)
+			if offSel[sel(m2)] || offAddr[m2.pc] {
+				if ok || len(d) > 0 {
+					r.res.Violate("C10/disabled-method-executed/"+m2.name, "%s executed (ok=%v, %d changes) although governance disabled %v", m2.name, ok, len(d), list)
+				}
+			} else if ok != works[m2.name] {
+				r.res.Violate("C10/switch-affected-other-method/"+m2.name, "%s changed outcome (%v -> %v) when %v were disabled", m2.name, works[m2.name], ok, list)
+			}
+		}
+	}
 	_ = fxstakingtypes.GetAddress
 }
